@@ -304,6 +304,8 @@ def use_after_move(ctx, file_suffixes, rid="UAM.use-after-move"):
     for fn in ctx.facts.fns:
         if not any(s in fn.file for s in file_suffixes):
             continue
+        if fn.inlined_helper:
+            continue
         moves = {}
         for b, i, e, n in fn.events():
             if n["k"] == "call" and n.get("callee") == "std::move":
@@ -322,7 +324,9 @@ def use_after_move(ctx, file_suffixes, rid="UAM.use-after-move"):
             move_refs = {r for m, r in mvs}
             kills = _assignments_to(fn, name)
             kill_lhs = {fn.kids(k)[0] for k in kills}
-            uses = [u for u in uses if u not in kill_lhs]
+            # a reference argument bound to a parameter of a virtually inlined helper is not a read: the helper's own accesses (renamed onto
+            # this variable by the inliner) are what counts
+            uses = [u for u in uses if u not in kill_lhs and not fn.nodes[u].get("inl_arg")]
             for m, mref in mvs:
                 for u in uses:
                     if u in move_refs or _is_dtor_use(fn, u):
